@@ -6,7 +6,10 @@ Translated, from traits/observation/ of the working tree (emits Generated/NodePr
     __init__ (rows `self.<f> = <parameter>`), iter_observables, iter_objects, get_notifier, get_maintainer,
     iter_extra_graphs (St);
   * _has_traits_helpers.py object_has_named_trait, iter_objects; _anytrait_filter.py anytrait_filter;
-    _metadata_filter.py MetadataFilter.__call__ (St, collected in `table` under their qualified names).
+    _metadata_filter.py MetadataFilter.__call__, _filtered_trait_observer.py _ListedTraitFilter.__call__ (St,
+    collected in `table` under their qualified names);
+  * _trait_added_observer.py TraitAddedObserver (__init__, notify, iter_observables, iter_objects, get_maintainer,
+    iter_extra_graphs) and _RestrictedNamedTraitObserver (the same + get_notifier).
 
 The translation is purely syntactic (one NodeL constructor per Python construct).  Parameters (after `self`) and
 locals are numbered slots in order of first binding, so renaming one changes nothing; keyword arguments of the four
@@ -36,12 +39,24 @@ HELPERS = [     # file, class or None, function, emitted definition, number of p
     ("_has_traits_helpers.py", None, "iter_objects", "iterObjects", 2),
     ("_anytrait_filter.py", None, "anytrait_filter", "anytraitFilter", 2),
     ("_metadata_filter.py", "MetadataFilter", "__call__", "metadataFilterCall", 2),
+    ("_filtered_trait_observer.py", "_ListedTraitFilter", "__call__", "listedFilterCall", 2),
+]
+ADDED_FILE = "_trait_added_observer.py"
+CLASSES2 = [    # class, prefix, [(method, suffix, number of parameters, is a property)]
+    ("TraitAddedObserver", "added",
+     [("notify", "Notify", 0, True), ("iter_observables", "IterObservables", 1, False),
+      ("iter_objects", "IterObjects", 1, False), ("get_maintainer", "GetMaintainer", 4, False),
+      ("iter_extra_graphs", "IterExtraGraphs", 1, False)]),
+    ("_RestrictedNamedTraitObserver", "restricted",
+     [("notify", "Notify", 0, True), ("iter_observables", "IterObservables", 1, False),
+      ("iter_objects", "IterObjects", 1, False), ("get_notifier", "GetNotifier", 3, False),
+      ("get_maintainer", "GetMaintainer", 4, False), ("iter_extra_graphs", "IterExtraGraphs", 1, False)]),
 ]
 CALLABLE = {"_has_traits_helpers.object_has_named_trait", "_has_traits_helpers.iter_objects"}
 BUILTINS = ["isinstance", "all", "getattr", "type", "ValueError"]
 EXCS = {"ValueError": ".valueError"}
 SF = {"name": ".name", "notify": ".notify", "optional": ".optional", "filter": ".filter",
-      "metadata_name": ".metadataName"}
+      "metadata_name": ".metadataName", "match_func": ".matchFunc", "_wrapped_observer": ".wrapped"}
 CLS = {"ctraits.CHasTraits": ".cHasTraits", "trait_list_object.TraitList": ".traitList",
        "trait_dict_object.TraitDict": ".traitDict", "trait_set_object.TraitSet": ".traitSet"}
 CONSTS = {"trait_base.Undefined": ".undefined", "trait_base.Uninitialized": ".uninitialized"}
@@ -125,8 +140,17 @@ class Module:
         if name in self.globals and self.names.count(name) == 1:
             return self.globals[name]
 
-    def function(self, cname, fname):
-        """the undecorated function / method, bound exactly once in its scope"""
+    def methods(self, cname):
+        """the names bound exactly once, by a def, in the body of the top-level class"""
+        cls = [s for s in self.tree.body if isinstance(s, ast.ClassDef) and s.name == cname]
+        if len(cls) != 1:
+            return []
+        inner = [x for s in cls[0].body for x in ([s.name] if isinstance(s, DEFS) else bound(s))]
+        return [s.name for s in cls[0].body if isinstance(s, ast.FunctionDef) and inner.count(s.name) == 1]
+
+    def function(self, cname, fname, prop=False):
+        """the undecorated function / method (decorated with exactly `@property` if prop), bound exactly once in
+        its scope"""
         scope = self.tree.body
         if cname is not None:
             cls = [s for s in scope if isinstance(s, ast.ClassDef) and s.name == cname]
@@ -140,7 +164,9 @@ class Module:
         elif self.resolve(fname) is None:
             raise Unknown("%s: %s is not bound exactly once" % (self.path, fname))
         d = [s for s in scope if isinstance(s, ast.FunctionDef) and s.name == fname]
-        if len(d) != 1 or d[0].decorator_list:
+        decs = d[0].decorator_list if len(d) == 1 else None
+        if decs is None or (decs and not (prop and len(decs) == 1 and is_name(decs[0], "property")
+                                          and "property" not in self.names)) or (prop and not decs):
             raise Unknown("%s: %s not found exactly once, undecorated" % (self.path, fname))
         return d[0]
 
@@ -165,8 +191,8 @@ def plain_params(fn, method, kwonly=False):
 class Fn:
     """Translation of the body of a function / method: `.term`."""
 
-    def __init__(self, m, fn, method, nparams):
-        self.m, self.method = m, method
+    def __init__(self, m, fn, method, nparams, cname=None):
+        self.m, self.method, self.cname = m, method, cname
         names = plain_params(fn, method)
         if len(names) != nparams:
             raise Unknown("%s: parameters %s" % (fn.name, names))
@@ -204,6 +230,9 @@ class Fn:
         return [kws[w] for w in wanted]
 
     def qual(self, n):
+        if isinstance(n, ast.Attribute) and is_name(n.value, "self") and self.method and self.cname \
+                and "self" not in self.slots and n.attr in self.m.methods(self.cname):
+            return lean_str("%s.%s.%s" % (self.m.mod, self.cname, n.attr))      # `self.<method of the class>`
         q = self.glob(n)
         if q is None:
             raise Unknown("not a global function: %s" % short(n))
@@ -241,6 +270,17 @@ class Fn:
                 return "(.boolLit %s)" % str(n.value).lower()
             if n.value is None:
                 return "(.const .noneLit)"
+            if type(n.value) is str:
+                return "(.strLit %s)" % lean_str(n.value)
+        if isinstance(n, ast.Attribute) and self.self_attr(n.value) and n.attr in SF:
+            return "(.attr %s %s)" % (self.ex(n.value), SF[n.attr])
+        if isinstance(n, ast.Subscript) and isinstance(n.slice, ast.Slice) and n.slice.upper is None \
+                and n.slice.step is None and n.slice.lower is not None:
+            k, neg = n.slice.lower, False
+            if isinstance(k, ast.UnaryOp) and isinstance(k.op, ast.USub):
+                k, neg = k.operand, True
+            if isinstance(k, ast.Constant) and type(k.value) is int:
+                return "(.sliceFrom %s (%d))" % (self.ex(n.value), -k.value if neg else k.value)
         f = self.self_attr(n)
         if f:
             return "(.selfF %s)" % f
@@ -257,6 +297,8 @@ class Fn:
                 return "(.isNotNone %s)" % self.ex(a)
             if isinstance(op, ast.Eq):
                 return "(.eq %s %s)" % (self.ex(a), self.ex(b))
+            if isinstance(op, ast.NotEq):
+                return "(.ne %s %s)" % (self.ex(a), self.ex(b))
         if isinstance(n, ast.Lambda):
             a = n.args
             if len(a.args) != 2 or a.vararg or a.kwarg or a.posonlyargs or a.kwonlyargs or a.defaults:
@@ -350,6 +392,13 @@ class Fn:
             return []
         if isinstance(s, ast.If):
             return ["(.ifS %s %s %s)" % (self.ex(s.test), self.block(s.body), self.block(s.orelse))]
+        if isinstance(s, ast.Return) and isinstance(s.value, ast.Call) and isinstance(s.value.func, ast.Attribute) \
+                and self.self_attr(s.value.func.value):
+            c = s.value                 # `return self.<attr>.<meth>(a1, .., an)`
+            if c.keywords or any(isinstance(a, ast.Starred) for a in c.args) or len(c.args) > 4:
+                raise Unknown("tail call %s" % short(c))
+            return ["(.retTail %s %s [%s])" % (self.ex(c.func.value), lean_str(c.func.attr),
+                                               ", ".join(self.ex(a) for a in c.args))]
         if isinstance(s, ast.Return):
             return [".ret" if s.value is None else "(.retE %s)" % self.ex(s.value)]
         if isinstance(s, ast.Raise) and s.cause is None and s.exc is not None:
@@ -426,7 +475,7 @@ def emit(traits_dir):
         m = module(fname)
         q = m.mod + "." + (cname + "." if cname else "") + f
         lines += ["/-- %s%s (%s%s) -/" % (cname + "." if cname else "", f, OBS_DIR, fname), "def %s : St :=" % dname,
-                  "  " + Fn(m, m.function(cname, f), cname is not None, nparams).term, ""]
+                  "  " + Fn(m, m.function(cname, f), cname is not None, nparams, cname).term, ""]
         table.append("(%s, %s)" % (lean_str(q), dname))
     lines += ["/-- the translated callees under their qualified names -/", "def table : List (String × St) :=",
               "  [%s]" % ", ".join(table), ""]
@@ -436,7 +485,14 @@ def emit(traits_dir):
                   "  " + init_rows(m.function(cname, "__init__")), ""]
         for meth, suffix, nparams in METHODS:
             lines += ["/-- %s.%s (%s%s) -/" % (cname, meth, OBS_DIR, fname), "def %s%s : St :=" % (prefix, suffix),
-                      "  " + Fn(m, m.function(cname, meth), True, nparams).term, ""]
+                      "  " + Fn(m, m.function(cname, meth), True, nparams, cname).term, ""]
+    m = module(ADDED_FILE)
+    for cname, prefix, meths in CLASSES2:
+        lines += ["/-- %s.__init__ (%s%s) -/" % (cname, OBS_DIR, ADDED_FILE), "def %sInit : InitRows :=" % prefix,
+                  "  " + init_rows(m.function(cname, "__init__")), ""]
+        for meth, suffix, nparams, prop in meths:
+            lines += ["/-- %s.%s (%s%s) -/" % (cname, meth, OBS_DIR, ADDED_FILE), "def %s%s : St :=" % (prefix, suffix),
+                      "  " + Fn(m, m.function(cname, meth, prop), True, nparams, cname).term, ""]
     lines.append("end TraitsVerif.Generated.NodeProg")
     return "\n".join(lines) + "\n"
 
